@@ -42,11 +42,17 @@ def direction (par : ParentMap) (vt : VarTable) (c : Conn) : Except Err (VRef ×
   | _, none => .error (.keyError (c.c2 ++ "$" ++ c.v2))
   | some i1, some i2 =>
     if par.lookup c.c1 = par.lookup c.c2 then
-      -- siblings (same parent, or both top level): public interfaces
-      if i1.pub = .out then .ok (c.end1, c.end2) else .ok (c.end2, c.end1)
-    -- "determine which component is parent of the other": only `_parent_of(comp_1, comp_2)` is tested
+      -- siblings (same parent, or both top level): public interfaces, one `out` and the other `in`
+      -- (after `fix: sibling connections need one public_interface 'out' and the other 'in'`; before, only
+      -- `variable_1.public_interface == 'out'` was looked at)
+      if i1.pub = .out && i2.pub = .inn then .ok (c.end1, c.end2)
+      else if i2.pub = .out && i1.pub = .inn then .ok (c.end2, c.end1)
+      else .error (.valueError "Cannot determine the source & target for connection")
+    -- "determine which component is parent of the other" (after `fix: a connection between components that are
+    -- neither siblings nor parent and child is refused`; before, only `_parent_of(comp_1, comp_2)` was tested)
     else if par.lookup c.c2 = some c.c1 then directionPC c.end1 i1 c.end2 i2
-    else directionPC c.end2 i2 c.end1 i1
+    else if par.lookup c.c1 = some c.c2 then directionPC c.end2 i2 c.end1 i1
+    else .error (.valueError "Cannot determine the source & target for connection")
 
 /-- one conversion equation `target = source.assigned_to * cf [target.units / source.units]` -/
 structure ConvEq where
